@@ -384,7 +384,7 @@ func (x *Exec) applyContract(fr *Frame, st *State, ct *Contract, key string, sig
 	}
 	wasPanicking := st.panicking
 	ev.bind["PANICKING"] = &Prim{T: BoolLit(wasPanicking)}
-	if ct.Panics == "may" && !st.panicking && x.panicPaths {
+	if ct.Panics == "may" && !st.panicking && x.panicPaths && !x.spawning {
 		// the callee may panic instead of returning: a second path unwinds from here
 		ps := st.clone()
 		x.branch(func() {
@@ -459,8 +459,11 @@ func (x *Exec) applyContract(fr *Frame, st *State, ct *Contract, key string, sig
 			post.bind[gv.Name] = &Prim{T: x.freshConst(st, "ghostout."+gv.Name, ghostSort(gv.Sort))}
 		}
 	}
-	for _, cl := range ct.Ensures {
-		st.assume(post.boolExpr(cl.Expr))
+	if !x.spawning {
+		// (the postconditions of a spawned goroutine hold when it ends, not at the spawn point)
+		for _, cl := range ct.Ensures {
+			st.assume(post.boolExpr(cl.Expr))
+		}
 	}
 	if ct.Panics == "may" {
 		x.usedMayPanic[key] = true
@@ -690,6 +693,9 @@ func (x *Exec) builtin(fr *Frame, st *State, b *ssa.Builtin, c *ssa.CallCommon, 
 	case "delete":
 		m := args[0].(*MapV)
 		x.mapDelete(st, m, args[1])
+		return nil
+	case "close":
+		x.chanClose(st, args[0], pos)
 		return nil
 	case "recover":
 		var res Value
